@@ -250,3 +250,83 @@ Proof.
   - pose proof (count_total m' l). pose proof (count_mono (fun x => m' <=? x) (fun x => m <? x) l
       ltac:(intros x Hx; apply Z.leb_le in Hx; apply Z.ltb_lt; lia)). lia.
 Qed.
+
+(* ---------------------------------------------------------------- the total statement: ValueError class included *)
+
+Lemma median_const : forall l x, l <> [] -> (forall y, In y l -> y = x) -> median_of l = x.
+Proof.
+  intros l x Hne Hall. unfold median_of. apply Hall.
+  apply (Permutation_in _ (Permutation_sym (zsort_perm l))). apply nth_In.
+  rewrite <- (Permutation_length (zsort_perm l)).
+  destruct l as [|a l]; [congruence|]. apply Nat.lt_div2. cbn. lia.
+Qed.
+
+Lemma median_one_sample : forall x (h : nat), (1 <= h)%nat ->
+  median_reflect_model [x] (2 * Z.of_nat h + 1) = MOk (median_reflect_spec [x] (2 * Z.of_nat h + 1)).
+Proof.
+  intros x h Hh. unfold median_reflect_model. set (w := 2 * Z.of_nat h + 1).
+  replace (w =? 1) with false by (symmetry; apply Z.eqb_neq; lia).
+  assert (Ew : (w + 1) / 2 = Z.of_nat h + 1) by (symmetry; apply Z.div_unique with (r := 0); lia).
+  rewrite Ew. replace (Z.to_nat (Z.of_nat h + 1)) with (h + 1)%nat by lia. cbn [length].
+  replace (1 <? h + 1)%nat with true by (symmetry; apply Nat.ltb_lt; lia). cbn [Nat.eqb negb andb].
+  assert (Emin : Z.min w (Z.of_nat (1 + 2 * (h + 1))) = w) by lia. rewrite Emin.
+  assert (Ev : Z.even w = false) by (unfold w; replace (2 * Z.of_nat h + 1) with (1 + 2 * Z.of_nat h) by lia; rewrite Z.even_add_mul_2; reflexivity).
+  rewrite Ev. f_equal. cbn [nth].
+  set (pad := (h + 1)%nat). set (big := repeat x pad ++ [x] ++ repeat x pad).
+  assert (LB : length big = (pad + (1 + pad))%nat) by (unfold big; rewrite !app_length, !repeat_length; reflexivity).
+  assert (Hbig : forall y, In y big -> y = x).
+  { intros y Hy. unfold big in Hy. apply in_app_or in Hy as [Hy|Hy]; [apply repeat_spec in Hy; exact Hy|].
+    apply in_app_or in Hy as [[Hy|[]]|Hy]; [congruence | apply repeat_spec in Hy; exact Hy]. }
+  unfold pydl_median1. rewrite LB, zrange_app, zrange_app, !map_app.
+  rewrite cut_middle by (rewrite map_length, zrange_len; reflexivity).
+  unfold median_reflect_spec. cbn [length]. rewrite !zrange_S. cbn [zrange seq map].
+  assert (E1 : (w - 1) / 2 = Z.of_nat h) by (symmetry; apply Z.div_unique with (r := 0); lia).
+  assert (E2 : Z.min w (Z.of_nat (pad + (1 + pad))) = w) by lia.
+  assert (E3 : w / 2 = Z.of_nat h) by (symmetry; apply Z.div_unique with (r := 1); lia).
+  rewrite E1, E2, E3, Ew.
+  replace (0 + Z.of_nat pad <? Z.of_nat h) with false by (symmetry; apply Z.ltb_ge; lia).
+  replace (Z.of_nat (pad + (1 + pad)) - (Z.of_nat h + 1) <? 0 + Z.of_nat pad) with false by (symmetry; apply Z.ltb_ge; lia).
+  cbn [orb]. f_equal.
+  assert (Wne : forall lo, zrange lo (Z.to_nat w) <> []) by (intros lo; replace (Z.to_nat w) with (S (2 * h)) by lia; rewrite zrange_S; discriminate).
+  rewrite (median_const _ x); [rewrite (median_const _ x); [reflexivity| |]| |].
+  - intros F. apply map_eq_nil in F. exact (Wne _ F).
+  - intros y Hy. apply in_map_iff in Hy as (j & <- & _).
+    pose proof (reflect_range (Z.of_nat 1) j ltac:(lia)) as R.
+    replace (Z.to_nat (reflect (Z.of_nat 1) j)) with O by lia. reflexivity.
+  - intros F. apply map_eq_nil in F. exact (Wne _ F).
+  - intros y Hy. apply in_map_iff in Hy as (j & <- & Hj). apply zrange_In in Hj.
+    unfold nthz. replace (j <? 0) with false by (symmetry; apply Z.ltb_ge; lia).
+    apply Hbig, nth_In. rewrite LB. lia.
+Qed.
+
+(* M = S (total) for every width >= 1 and every non-empty array: the model raises ValueError exactly where the
+   specification says the call is refused *)
+Theorem median_reflect_model_total : forall xs w, 1 <= w -> xs <> [] ->
+  median_reflect_model xs w = median_reflect_total_spec xs w.
+Proof.
+  intros xs w Hw Hne. destruct (Z.eq_dec w 1) as [->|N1]; [reflexivity|].
+  assert (Hn : (1 <= length xs)%nat) by (destruct xs; [congruence | cbn; lia]).
+  destruct (Z.even w) eqn:Ev.
+  - unfold median_reflect_model, median_reflect_total_spec. rewrite Ev.
+    replace (w =? 1) with false by (symmetry; apply Z.eqb_neq; exact N1).
+    destruct ((length xs <? Z.to_nat ((w + 1) / 2))%nat && negb (length xs =? 1)%nat); [reflexivity|].
+    assert (Emin : Z.min w (Z.of_nat (length xs + 2 * Z.to_nat ((w + 1) / 2))) = w).
+    { assert (w <= 2 * ((w + 1) / 2)) by (pose proof (Z.div_mod (w + 1) 2 ltac:(lia)); pose proof (Z.mod_pos_bound (w + 1) 2 ltac:(lia)); lia). lia. }
+    rewrite Emin, Ev. reflexivity.
+  - (* odd w >= 3: w = 2h+1 *)
+    assert (Hodd : w = 2 * ((w - 1) / 2) + 1).
+    { pose proof (Zeven_odd_dec w). rewrite <- Z.negb_odd in Ev. apply negb_false_iff in Ev.
+      apply Z.odd_spec in Ev as [k Hk]. subst w. replace (2 * k + 1 - 1) with (k * 2) by lia. rewrite Z.div_mul by lia. lia. }
+    set (h := Z.to_nat ((w - 1) / 2)).
+    assert (Hh : (1 <= h)%nat) by (unfold h; lia).
+    assert (Ewh : w = 2 * Z.of_nat h + 1) by (unfold h; lia).
+    assert (Epad : Z.to_nat ((w + 1) / 2) = (h + 1)%nat).
+    { rewrite Ewh. replace (2 * Z.of_nat h + 1 + 1) with ((Z.of_nat h + 1) * 2) by lia. rewrite Z.div_mul by lia. lia. }
+    unfold median_reflect_total_spec. rewrite Ev, Epad.
+    replace (w =? 1) with false by (symmetry; apply Z.eqb_neq; exact N1).
+    destruct (length xs <? h + 1)%nat eqn:Es; [destruct (length xs =? 1)%nat eqn:E1|]; cbn [negb andb].
+    + apply Nat.eqb_eq in E1. destruct xs as [|x [|y r]]; try discriminate. rewrite Ewh. apply median_one_sample, Hh.
+    + unfold median_reflect_model. replace (w =? 1) with false by (symmetry; apply Z.eqb_neq; exact N1).
+      rewrite Epad, Es, E1. reflexivity.
+    + apply Nat.ltb_ge in Es. rewrite Ewh. apply median_reflect_model_eq_spec; assumption.
+Qed.
